@@ -14,6 +14,7 @@ import (
 	"runtime/debug"
 	"time"
 
+	"free5gclib/aper"
 	"free5gclib/ngap"
 	"free5gclib/ngap/ngapType"
 	"verifharness/internal/ev"
@@ -75,7 +76,51 @@ func seeds(seed int64, per int, out string) [][]byte {
 			}
 		}
 	}
+	// transfer containers (decoded separately from the PDU that carries them as an OCTET STRING): seed ids from 9000, one full and
+	// (thorough) further random values per type; the types reachable only through a transfer meet corrupted input through these
+	for ti, tv := range te.TransferTypes {
+		for k, tries := 0, 0; k < per && tries < 8*per; k, tries = k+1, tries+1 {
+			g.MaxList, g.MinList, g.Rich, g.Full = []int{4, 1, 8, 2}[k%4], []int{2, 0, 3, 1}[k%4], k%2 == 0, 0
+			if k == 0 && tries == 0 {
+				g.Full = 1
+			}
+			if tries > k {
+				g.MinList, g.Rich, g.MaxList = 0, tries%2 == 0, 2
+			}
+			v := reflect.New(reflect.TypeOf(tv)).Elem()
+			g.Fill(v, te.Parse("valueExt"), 1)
+			var b []byte
+			var err error
+			if p := ev.Catch(func() { b, err = aper.MarshalWithParams(v.Interface(), "valueExt") }); p != "" || err != nil || len(b) > 700 {
+				k--
+				continue
+			}
+			all = append(all, b)
+			if w != nil {
+				w.Emit(ev.M{"ev": "Seed", "id": 9000 + ti*100 + k, "name": v.Type().Name(), "bytes": ev.Ints(b), "tree": te.Export(v, te.Parse("valueExt"))})
+			}
+		}
+	}
 	return all
+}
+
+// transferOf: the transfer type a case id belongs to (seed ids 9000 + 100 * type index + k), or -1 for an NGAP PDU
+func transferOf(id interface{}) int {
+	s, ok := id.(string)
+	if !ok {
+		return -1
+	}
+	n := 0
+	for _, c := range s {
+		if c < '0' || c > '9' {
+			break
+		}
+		n = n*10 + int(c-'0')
+	}
+	if n >= 9000 && (n-9000)/100 < len(te.TransferTypes) {
+		return (n - 9000) / 100
+	}
+	return -1
 }
 
 type result struct {
@@ -84,7 +129,7 @@ type result struct {
 	alloc   uint64
 }
 
-func decodeGuarded(b []byte) result {
+func decodeGuarded(b []byte, transfer int) result {
 	done := make(chan result, 1)
 	go func() {
 		var ms runtime.MemStats
@@ -93,7 +138,13 @@ func decodeGuarded(b []byte) result {
 		t0 := time.Now()
 		outcome := "value"
 		var err error
-		p := ev.Catch(func() { _, err = ngap.Decoder(b) })
+		p := ev.Catch(func() {
+			if transfer >= 0 {
+				err = aper.UnmarshalWithParams(b, reflect.New(reflect.TypeOf(te.TransferTypes[transfer])).Interface(), "valueExt")
+			} else {
+				_, err = ngap.Decoder(b)
+			}
+		})
 		if p != "" {
 			outcome = "panic"
 		} else if err != nil {
@@ -140,7 +191,7 @@ func main() {
 			return
 		}
 		idx++
-		r := decodeGuarded(b)
+		r := decodeGuarded(b, transferOf(id))
 		e := ev.M{"ev": "Decode", "id": id, "kind": kind, "len": len(b), "outcome": r.outcome, "ms": int(r.ms), "allocKiB": int(r.alloc / 1024)}
 		if keepInput || r.outcome == "panic" || r.outcome == "hang" || r.ms > 200 || r.alloc > 64<<20 {
 			e["input"] = ev.Ints(b)
